@@ -376,7 +376,7 @@ pub fn run(ctx: &Ctx) {
         if nontrivial(c) {
             ctx.class("nontrivial");
             ctx.nontrivial(hash_of(c));
-            if hash_of(c) % 211 == 0 {
+            if (ctx.samples_len() < 2 || hash_of(c) % 211 == 0) {
                 ctx.sample(6, || case_json(c));
             }
         }
